@@ -21,7 +21,6 @@ from .ber import Null
 from .ber import ObjectIdentifier
 from .ber import Enumerated
 from .ber import Sequence
-from .ber import Set
 from .ber import Choice
 from .ber import Any
 from .ber import AnyDefinedBy
@@ -35,6 +34,58 @@ from .ber import encode_tag
 from .ber import encode_real
 from .ber import decode_length
 from .ber import decode_real
+
+
+def encoded_tag_key(encoded):
+    """Returns the class and number of the tag given encoding starts
+    with, for sorting in canonical tag order.
+
+    """
+
+    number = (encoded[0] & 0x1f)
+
+    if number == 0x1f:
+        number = 0
+
+        for byte in encoded[1:]:
+            number <<= 7
+            number |= (byte & 0x7f)
+
+            if not byte & 0x80:
+                break
+
+    return (encoded[0] & 0xc0, number)
+
+
+class Set(ber.Set):
+
+    def encode_content(self, data, values=None):
+        # All components, extension additions included, are encoded
+        # in ascending tag order (X.690 10.3).
+        encoded_members = []
+
+        for member in self.root_members:
+            encoded_member = bytearray()
+            self.encode_member(member, data, encoded_member)
+            encoded_members.append(encoded_member)
+
+        if self.additions:
+            try:
+                for member in ber.flatten(self.additions):
+                    encoded_member = bytearray()
+                    self.encode_member(member, data, encoded_member)
+                    encoded_members.append(encoded_member)
+            except ber.EncodeError:
+                pass
+
+        encoded_members = [
+            encoded_member
+            for encoded_member in encoded_members
+            if len(encoded_member) > 0
+        ]
+
+        return bytearray().join(sorted(encoded_members,
+                                       key=encoded_tag_key))
 
 
 class Type(ber.StandardDecodeMixin, ber.Type):
